@@ -32,8 +32,40 @@ fn main() {
         a.iter().position(|x| *x == "--path").and_then(|i| a.get(i + 1)).and_then(|p| std::fs::read_dir(p).ok())
             .map(|rd| { let mut v: Vec<String> = rd.flatten().map(|e| e.file_name().to_string_lossy().to_string()).collect(); v.sort(); v }).unwrap_or_default()
     } else { vec![] };
+    // for pack build: what every --buildpack argument that is a directory holds at this moment
+    // (locally packaged buildpacks live in a temporary directory that is gone later)
+    let mut bp_dirs: Vec<Value> = vec![];
+    if kind == "pack-build" {
+        let describe = |p: &std::path::Path| -> Value {
+            let text = std::fs::read_to_string(p.join("buildpack.toml")).unwrap_or_default();
+            let id = text.lines().find_map(|l| l.trim().strip_prefix("id = \"").and_then(|r| r.split('"').next()).map(str::to_string));
+            let build = std::fs::read(p.join("bin/build")).ok();
+            let marker = build.as_ref().and_then(|b| {
+                let hay = String::from_utf8_lossy(b).to_string();
+                hay.find("VERIF-MARKER<").map(|i| hay[i + 13..].split('>').next().unwrap_or("").to_string())
+            });
+            json!({"is_dir": p.is_dir(), "id": id, "build": build.is_some(), "marker": marker,
+                   "detect": std::fs::read_link(p.join("bin/detect")).ok().map(|t| t.to_string_lossy().to_string())})
+        };
+        for (i, x) in a.iter().enumerate() {
+            if *x == "--buildpack" {
+                if let Some(v) = a.get(i + 1) {
+                    let p = std::path::Path::new(v);
+                    if p.is_absolute() && p.is_dir() {
+                        let mut d = describe(p);
+                        let pkg = std::fs::read_to_string(p.join("package.toml")).unwrap_or_default();
+                        let deps: Vec<Value> = pkg.lines().filter_map(|l| l.trim().strip_prefix("uri = \"").and_then(|r| r.split('"').next()).map(str::to_string))
+                            .filter(|u| u != ".").map(|u| { let mut x = describe(std::path::Path::new(&u)); x["uri"] = json!(u); x }).collect();
+                        d["deps"] = json!(deps);
+                        d["arg"] = json!(v);
+                        bp_dirs.push(d);
+                    }
+                }
+            }
+        }
+    }
     let mut log = std::fs::OpenOptions::new().create(true).append(true).open(state.join("log.ndjson")).unwrap();
-    writeln!(log, "{}", json!({"prog": prog, "argv": args[1..], "kind": kind, "outcome": outcome, "path_listing": listing})).unwrap();
+    writeln!(log, "{}", json!({"prog": prog, "argv": args[1..], "kind": kind, "outcome": outcome, "path_listing": listing, "buildpack_dirs": bp_dirs})).unwrap();
     // like the real tools: `docker rmi --force` of an image that was never built fails ("No such
     // image"), while `docker rm --force` / `docker volume remove --force` of something missing succeed
     let built = state.join("image-built");
